@@ -51,11 +51,12 @@ def poolThreads (e : PoolEnv) : Nat :=
   | 0 => e.physical
   | requested => min requested e.physical
 
-/-- `pin_current(idx)` given the number of CPUs in the affinity mask: `none` = panic (debug builds only,
-inside the worker's start handler), `some b` = its return value -/
-def pinCurrent (debugAssertions : Bool) (numAvailable idx : Nat) (setAffinityOk : Bool) : Option Bool :=
+/-- `pin_current(idx)` given the number of CPUs in the affinity mask: `none` = panic (which, inside rayon's start
+handler, aborts the process), `some b` = its return value. Since the fix 8898592 no build configuration panics:
+an index beyond the mask leaves the thread unpinned. -/
+def pinCurrent (_debugAssertions : Bool) (numAvailable idx : Nat) (setAffinityOk : Bool) : Option Bool :=
   if numAvailable = 0 then some false
-  else if numAvailable ≤ idx then (if debugAssertions then none else some false)
+  else if numAvailable ≤ idx then some false
   else some setAffinityOk
 
 /-! ### the shared pool: `OnceLock<Option<ThreadPool>>` -/
